@@ -4,29 +4,38 @@
    (children) on every template of the sequence class, re-feeding the children that a passing final check serialises reproduces
    exactly that sequence and passes again.  Decimal spelling (4 vs 4.0), union types and the other content models are covered by
    the document-level correspondence. *)
-From MX Require Import Spec.CharRe Spec.Particle Spec.Deriv Model.SimpleType Model.SimpleTypeThms Model.Parser Gen.SimpleTypes
+From MX Require Import Spec.CharRe Spec.Particle Spec.Deriv Model.SimpleType Model.SimpleTypeThms Model.Parser Gen.SimpleTypes Gen.Code
   Model.AbsSeq Model.AbsSeqC02 Model.Classes Model.SeqMachine.
 From Coq Require Import List String NArith ZArith Bool.
 Import ListNotations.
 Open Scope string_scope.
 Definition lrows : list (string * option rcls) := Eval vm_compute in map (fun p => (snd p, resolve lib_st 6 (snd p))) st_pairs.
 
+(* the ladders are the ones the translator reads from musicxml/parser/parser.py on every run (fail-closed: any other shape of
+   _et_xml_to_music_xml / _parse_node / parse_musicxml, module-level state included, makes tr_parser_ok false) *)
+Theorem C08_parser_source : tr_parser_ok = true
+  /\ parser_text_ladder = [(CId, [PTypeError]); (CFloat, [PTypeError]); (CInt, [])]
+  /\ parser_attr_ladder = [(CId, [PTypeError; PValueError]); (CInt, [PValueError]); (CFloat, [])].
+Proof. repeat split; reflexivity. Qed.
 Section WithPython.
   Variable py_float : pstr -> option pyval.
   Theorem C08_enum_values : forall c r lits lit, In (c, Some r) lrows -> is_enum_r r = Some lits -> In lit lits -> strip (cp lit) = cp lit ->
-    text_ladder py_float py_int_model r (cp lit) = LValue (VStr (cp lit)) /\ attr_ladder py_float py_int_model r (cp lit) = LValue (VStr (cp lit)).
-  Proof. intros c r lits lit _ E I S. split; [apply text_ladder_enum with lits; auto|apply attr_ladder_enum with lits; auto]. Qed.
+    text_ladder py_float py_int_model parser_text_ladder r (cp lit) = LValue (VStr (cp lit)) /\ attr_ladder py_float py_int_model parser_attr_ladder r (cp lit) = LValue (VStr (cp lit)).
+  Proof.
+    intros c r lits lit _ E I S. destruct C08_parser_source as (_ & -> & ->). split; [apply text_ladder_enum with lits; auto|apply attr_ladder_enum with lits; auto].
+  Qed.
   (* hypotheses on float(): it returns a float (or raises ValueError) and does accept the decimal text of an integer *)
   Hypothesis float_returns_float : forall s f, py_float s = Some f -> exists k q r, f = VFloat k q r.
   Hypothesis float_reads_integers : forall z, py_float (strip (render_int z)) <> None.
   Theorem C08_int_values : forall c r z, In (c, Some r) lrows -> is_pure_int_r r = true -> fst (SimpleType.run r (VInt z)) = Ok ->
-    text_ladder py_float py_int_model r (render_int z) = LValue (VInt z) /\ attr_ladder py_float py_int_model r (render_int z) = LValue (VInt z).
+    text_ladder py_float py_int_model parser_text_ladder r (render_int z) = LValue (VInt z) /\ attr_ladder py_float py_int_model parser_attr_ladder r (render_int z) = LValue (VInt z).
   Proof.
-    intros c r z _ P A. destruct (py_int_model_render z) as [S1 S2]. split.
+    intros c r z _ P A. destruct (py_int_model_render z) as [S1 S2]. destruct C08_parser_source as (_ & -> & ->). split.
     - apply text_ladder_int; auto. intros f E. eapply float_returns_float; eauto.
     - apply attr_ladder_int; auto.
   Qed.
 End WithPython.
+Print Assumptions C08_parser_source.
 Print Assumptions C08_enum_values.
 Print Assumptions C08_int_values.
 (* the literals of every enumeration class carry no outer white space (so strip leaves them alone), and there are pure-int classes *)
